@@ -495,6 +495,8 @@ static void worker_main(int wid, int nworkers, const std::string &prop, uint64_t
     const std::vector<std::string> *nt = NONTRIVIAL.count(prop) ? &NONTRIVIAL.at(prop) : nullptr;
     uint64_t idx = start;
     double last_ckpt = now_s();
+    FILE *dumpf = nullptr; // determinism self-test: per-index log hashes
+    if (const char *d = getenv("VERIF_DUMP_HASHES")) dumpf = fopen((std::string(d) + "." + std::to_string(wid)).c_str(), "w");
     for (; idx < max_runs; idx += (uint64_t)nworkers) {
         if ((idx / nworkers) % 16 == 0 && now_s() > deadline) break;
         if (g_shm->stop) break;
@@ -502,6 +504,7 @@ static void worker_main(int wid, int nworkers, const std::string &prop, uint64_t
         Plan p = plan_for(prop, vseed, idx, tier);
         RunResult r = run_plan(p, false);
         a.runs++;
+        if (dumpf) fprintf(dumpf, "%llu %llu\n", (unsigned long long)idx, (unsigned long long)r.hash);
         merge_stats(a.st, r.st);
         a.families[p.family]++;
         { std::set<int> kinds; for (auto &o : p.ops) for (auto &f : o.f) kinds.insert(f.kind); for (int k : kinds) a.fault_configured[k]++; }
@@ -523,6 +526,7 @@ static void worker_main(int wid, int nworkers, const std::string &prop, uint64_t
         if ((a.runs & 63) == 0) { double t = now_s(); if (t - last_ckpt > 1.0) { write_agg(a, resfile + ".tmp"); rename((resfile + ".tmp").c_str(), resfile.c_str()); last_ckpt = t; } }
     }
     g_shm->cur[wid] = 0;
+    if (dumpf) fclose(dumpf);
     write_agg(a, resfile);
 }
 
